@@ -18,7 +18,7 @@ func Family(i int, seed int64) (*GenesisSpec, int) {
 			g.Balances = append(g.Balances, each)
 		}
 	}
-	switch i % 4 {
+	switch i % 5 {
 	case 0: // three equal validators
 		bal(6, "1000000000000000000000")
 		g.Validators = []GenVal{{1, 10}, {2, 10}, {3, 10}}
@@ -36,6 +36,12 @@ func Family(i int, seed int64) (*GenesisSpec, int) {
 		g.Gov["slashRatio"] = "34"
 		g.Gov["signedBlocksWindow"] = "3"
 		return g, 9
+	case 4: // tiny validators: powers at the boundaries of the integer divisions (slashing 50 % of power 1 is 0), small stakes
+		bal(8, "1000000000000000000000")
+		g.Validators = []GenVal{{1, 1}, {2, 1}, {3, 2}, {4, 3}}
+		g.Gov["maxValidatorCnt"] = "5"
+		g.Gov["minValidatorStake"] = "1000000000000000000"
+		return g, 8
 	default: // four validators, larger windows, different prices
 		bal(8, "3000000000000000000000")
 		g.Validators = []GenVal{{1, 100}, {2, 100}, {3, 100}, {4, 100}}
@@ -136,6 +142,7 @@ func RunRandom(seed int64, g *GenesisSpec, naccts int, p Profile, root string, e
 		}
 		return ev
 	}
+	var waiting []Op
 	for h := int64(1); h <= int64(p.Blocks) && r.Dead == ""; h++ {
 		hd := gen.Cons.Header(h, gen.Rng, p.PAbsent, p.PEvidence, p.PNoProposer, gen.Stranger())
 		ev := do(Op{Kind: "begin", Hdr: &hd})
@@ -157,6 +164,7 @@ func RunRandom(seed int64, g *GenesisSpec, naccts int, p Profile, root string, e
 			}
 			if gen.Rng.Float64() < p.PCheck {
 				op.Kind = "check" // mempool only: this transaction is never delivered
+				waiting = append(waiting, *op)
 			}
 			ev2 := do(*op)
 			if ev2 != nil && ev2["post"] != nil {
@@ -176,6 +184,14 @@ func RunRandom(seed int64, g *GenesisSpec, naccts int, p Profile, root string, e
 			break
 		}
 		do(Op{Kind: "commit"})
+		// what the mempool does after a commit: every transaction still waiting is re-checked (type Recheck)
+		for _, w := range waiting {
+			if r.Dead == "" {
+				w.Recheck, w.Tag = true, "recheck:"+w.Tag
+				do(w)
+			}
+		}
+		waiting = nil
 		if r.Dead == "" && gen.Rng.Float64() < p.PRestart {
 			do(Op{Kind: "restart"})
 		}
